@@ -239,3 +239,79 @@ Section Generic.
     apply (run_ledger_inv (fun l => NoDup (revs l))). intros e l Hl. now apply storage_apply_nodup.
   Qed.
 End Generic.
+
+(* ------------------------------------------------------------------ *)
+(* Thread-local view: the events of thread [i] in the trace are a path through ITS program.
+   [follows p evs q]: performing [evs] (effects and the answers they got) leads from [p] to [q]. *)
+Fixpoint follows {A} (p : prog A) (evs : list cev) (q : prog A) {struct evs} : Prop :=
+  match evs with
+  | [] => p = q
+  | c :: t =>
+      match p with
+      | Ret _ => False
+      | Eff e k => exists (r : resp e) (out : list tev), c = mkCev (ce_tid c) e r out /\ follows (k r) t q
+      end
+  end.
+
+Lemma follows_snoc {A} (evs : list cev) : forall (p : prog A) e k i r out,
+  follows p evs (Eff e k) -> follows p (evs ++ [mkCev i e r out]) (k r).
+Proof.
+  induction evs as [|c t IH]; intros p e k i r out H; simpl in *.
+  - subst p. exists r, out. split; reflexivity.
+  - destruct p as [a|e0 k0]; [contradiction|].
+    destruct H as [r0 [out0 [Hc Hf]]]. exists r0, out0. split; [exact Hc|]. now apply IH.
+Qed.
+
+Lemma thread_events_app i a b : thread_events i (a ++ b) = (thread_events i a ++ thread_events i b)%list.
+Proof. unfold thread_events. apply filter_app. Qed.
+
+Section Projection.
+  Variable K : Type.
+  Variable kh : forall e : eff, K -> K * resp e * list kev.
+  Variable dresp : forall e : eff, resp e.
+  Variable A : Type.
+  Variable ts0 : list (prog A).
+
+  Definition proj_inv (ts : list (prog A)) (s : cstate K) : Prop :=
+    List.length ts = List.length ts0 /\
+    forall i p, nth_error ts0 i = Some p ->
+      exists q, nth_error ts i = Some q /\ follows p (thread_events i (c_tr s)) q.
+
+  Lemma proj_inv_step i ts s ts' s' :
+    proj_inv ts s -> step_thread K kh dresp A i ts s = Some (ts', s') -> proj_inv ts' s'.
+  Proof.
+    intros [L H] St. apply step_thread_inv in St. destruct St as [e [k [Hn [-> ->]]]].
+    destruct (cstep_spec K kh dresp i e s) as [r [out [E _]]]. rewrite E. simpl.
+    split; [rewrite set_nth_length; exact L|].
+    intros j p Hj. destruct (H j p Hj) as [q [Hq Hf]]. simpl.
+    rewrite thread_events_app. simpl. unfold by_thread. simpl.
+    destruct (Nat.eqb i j) eqn:Eij.
+    - apply Nat.eqb_eq in Eij. subst j. rewrite Hn in Hq. inversion Hq; subst q.
+      exists (k r). split.
+      + apply nth_error_set_nth_eq. eapply nth_error_lt; eauto.
+      + now apply follows_snoc.
+    - apply Nat.eqb_neq in Eij. exists q. rewrite nth_error_set_nth_neq by exact Eij.
+      rewrite app_nil_r. auto.
+  Qed.
+
+  (* from an empty trace: at the end every thread has returned the value its own events lead to *)
+  Theorem run_follows sch l k :
+    let res := run K kh dresp A ts0 sch (mkC l k []) in
+    forall i p, nth_error ts0 i = Some p ->
+      exists a, nth_error (fst res) i = Some (Ret a)
+                /\ follows p (thread_events i (c_tr (snd res))) (Ret a).
+  Proof.
+    intros res i p Hp.
+    assert (G : proj_inv (fst res) (snd res)).
+    { apply (run_inv K kh dresp A proj_inv proj_inv_step). split; [reflexivity|].
+      intros j q Hj. exists q. simpl. auto. }
+    destruct G as [_ G]. destruct (G i p Hp) as [q [Hq Hf]].
+    pose proof (run_all_ret K kh dresp A ts0 sch (mkC l k [])) as R.
+    rewrite Forall_forall in R. specialize (R q (nth_error_In _ _ Hq)).
+    destruct q as [a|]; [|contradiction]. exists a. auto.
+  Qed.
+
+  Lemma outcomes_nth (ts : list (prog A)) i a :
+    nth_error ts i = Some (Ret a) -> nth_error (outcomes A ts) i = Some (Some a).
+  Proof. intros H. unfold outcomes. rewrite nth_error_map, H. reflexivity. Qed.
+End Projection.
